@@ -29,7 +29,7 @@ def replay(adapter, header, runs, chunks=None, timeout=1800):
     d, env = build.build()
     work = common.scratch('vt-replay-')
     if chunks is None:
-        chunks = max(1, min(common.NCPU, len(runs) // 20 + 1))
+        chunks = max(1, min(common.NCPU, len(runs) // 2))
     parts = [runs[i::chunks] for i in range(chunks)]
     jobs = []
     for i, p in enumerate(parts):
